@@ -3,8 +3,9 @@
 MC : Check.tla: an abstract repository (two snapshots; two root-tree-only packs and two data packs of pairwise identical
      layout, a sub-tree pack, an unreferenced pack, one index) x every single-file damage kind incl. swap with a sibling:
      Verdict (the stages of check --read-data, computed over what is actually read through the index) = clean implies
-     AllRestorable; a check that skips pack contents, the root-tree packs or the file-hash comparison violates it
-     (negative controls; the last two are the library before its two fixes).
+     AllRestorable, for every choice of the copy of a twice-stored blob that check's and restore's index lookups return;
+     a check that skips pack contents, the root-tree packs, the file-hash comparison or the other copies violates it
+     (negative controls; the last three are the library before its three fixes).
 TV : repositories produced by real histories (several snapshots, forgotten ones, marked and repacked packs, compression
      on/off); for every stored file except the config x {remove, truncate to structural and generic lengths, bit flips in
      every structural region (envelope nonce / body / tag, each blob region, trailer, length field) and random ones, swap
@@ -32,6 +33,14 @@ def programs(seed, n):
             steps.append({"cmd": "backup", "files": gen.evolve(rng, files)})
         cfg = gen.rand_cfg(rng)
         progs.append({"id": "c05-%d-%d" % (seed, i), "seed": seed * 1000 + i, "cfg": cfg, "probe": "none", "steps": steps})
+    # directed: every blob stored twice (the second backup goes through a handle that loaded the index before the first
+    # one ran) - check and restore may resolve a blob to different copies
+    for k in range(max(1, n // 10)):
+        files = gen.rand_files(rng, 3)
+        cfg = gen.rand_cfg(rng)
+        cfg.pop("version", None)
+        progs.append({"id": "c05-%d-dup%d" % (seed, k), "seed": seed * 1000 + 900 + k, "cfg": cfg, "probe": "none",
+                      "steps": [{"cmd": "load", "h": 1}, {"cmd": "backup", "files": files}, {"cmd": "backup", "files": files, "h": 1}]})
     return progs
 
 
@@ -58,7 +67,8 @@ def run(ctx):
     vlib.mc(ctx, "Check.tla", "MCCheck.cfg", workers=1, timeout=300)
     for cfg, what in (("MCCheckNoRead.cfg", "does not read pack data"),
                       ("MCCheckNoRoot.cfg", "does not read the packs of the snapshots' root trees (the library before fix 30d2429)"),
-                      ("MCCheckNoFileHash.cfg", "does not compare snapshot files with their id (the library before fix f20e079)")):
+                      ("MCCheckNoFileHash.cfg", "does not compare snapshot files with their id (the library before fix f20e079)"),
+                      ("MCCheckOneCopy.cfg", "reads only the copy of a twice-stored blob that its own lookup returned (the library before fix eac9a9d)")):
         r = vlib.tlc("Check.tla", cfg, workers=1, timeout=300, metadir=os.path.join(ctx.out, "mc-" + cfg))
         ctx.negative_control(r.violated == "Sound", "model: a check that %s must violate Sound" % what)
     progs = programs(ctx.seed, 3 if q else 30)
